@@ -555,7 +555,7 @@ func memoTableTotal(c *Ctx, v *variants.Variant, rule string) {
 	for _, p := range paths {
 		for _, gd := range p.guards() {
 			t := gd[1:]
-			if !(t == "p.memo==nil" || strings.HasSuffix(t, "==nil") && !strings.Contains(t, sp[2]) || strings.HasPrefix(t, "len(") && strings.HasSuffix(t, ")==0") && !strings.Contains(t, sp[2])) {
+			if strings.Contains(t, sp[2]) || !(strings.HasSuffix(t, "==nil") || strings.HasSuffix(t, "!=nil") || strings.HasPrefix(t, "len(") && (strings.HasSuffix(t, ")==0") || strings.HasSuffix(t, ")>0"))) {
 				bad = append(bad, "the store depends on `"+t+"`: a result that is not stored is evaluated again (C06 bound) and a left-recursive leader keeps its failure seed instead of the grown result")
 			}
 		}
@@ -606,7 +606,7 @@ func memoTableTotal(c *Ctx, v *variants.Variant, rule string) {
 		}
 		for _, gd := range p.guards() {
 			t := gd[1:]
-			if !(strings.HasPrefix(t, "len(") && strings.HasSuffix(t, ")==0") || strings.HasSuffix(t, "==nil")) || strings.Contains(t, node) {
+			if strings.Contains(t, node) || !(strings.HasPrefix(t, "len(") && (strings.HasSuffix(t, ")==0") || strings.HasSuffix(t, ")>0")) || strings.HasSuffix(t, "==nil") || strings.HasSuffix(t, "!=nil")) {
 				bad = append(bad, "the lookup depends on `"+t+"`")
 			}
 		}
